@@ -46,12 +46,12 @@ Ltac gd := unfold ParserComplete3.G, ParserComplete3.G' in *; lia.
 
 (* ---------------------------------------------------------------- variables and calls *)
 Lemma L_var p mx n g s' : G' p -> g_var n g (SS p) = Some s' -> CTX g mx -> follow fcont mx s' ->
-  RT (var_def ts R (p, mx)) mx (fun t p' => SS p' = s' /\ p < p' /\ den g t = true /\ is_none t = false /\ is_hidden t = false).
+  RT ts (var_def ts R (p, mx)) mx (fun t p' => SS p' = s' /\ p < p' /\ den g t = true /\ is_none t = false /\ is_hidden t = false).
 Proof.
   intros HG Hg HC Hf. destruct n; [discriminate|]. cbn [g_var] in Hg.
   destruct (is_tag g tVarName || is_tag g tVarIndex || is_tag g tVarAttribute) eqn:Et; [|discriminate].
   unfold var_def. eapply RT_bind; [eapply L_prefixexp; eassumption|].
-  cbv beta. intros t p' (Q1 & Q2 & Q3 & Q4 & Q5).
+  cbv beta. intros t p' Hl_px (Q1 & Q2 & Q3 & Q4 & Q5).
   assert (Hv : is_var t = true).
   { destruct g as [tag a b sh fs| | | | | | | |]; try discriminate Et. unfold is_tag in Et. unfold is_var.
     assert (Hc : (tag =? tChain) = false).
@@ -60,29 +60,29 @@ Proof.
       destruct (tag =? tVarAttribute) eqn:E3; [apply Z.eqb_eq in E3; subst; reflexivity | discriminate Et]. }
     rewrite (den_tag_of _ _ _ _ _ _ Q3 Hc). rewrite <- orb_assoc in Et. rewrite <- Et.
     destruct (tag =? tVarName), (tag =? tVarIndex), (tag =? tVarAttribute); reflexivity. }
-  rewrite Hv. rewrite ret_eq. apply RT_ok. repeat split; assumption.
+  rewrite Hv. rewrite ret_eq. apply RT_ok; [lia|]. repeat split; assumption.
 Qed.
 
 Lemma L_varlist_loop : varlist_loop_ok ts G' (varlist_loop_def ts R).
 Proof.
   intros p mx n l s' HG Hg HC Hf. destruct HG as [Hp0 HGk]. unfold varlist_loop_def.
   destruct l as [|c [|x r]]; cbn [sep_tail] in Hg; [|discriminate|].
-  - injection Hg as <-. miss. rewrite ret_eq. apply RT_ok. repeat split; first [lia | reflexivity].
+  - injection Hg as <-. miss. rewrite ret_eq. apply RT_ok; [lia|]. repeat split; first [lia | reflexivity].
   - osplit Hg E1. osplit Hg E2. apply CTXL_cons in HC. destruct HC as [HC1 HC]. apply CTXL_cons in HC. destruct HC as [HC2 HC].
     tinv E1. hit.
     assert (Hfx : follow fcont mx s0).
     { destruct r as [|c2 [|x2 r2]]; cbn [sep_tail] in Hg; [injection Hg as <-; fw | discriminate |].
       apply obind_some in Hg. destruct Hg as (? & Hg & _). pose proof (hd_sym _ _ _ _ Hg) as Hh. fhd Hh. }
     eapply RT_bind; [eapply L_var; [gd | exact E2 | exact HC2 | exact Hfx]|].
-    cbv beta. intros v p1 (Q1 & Q2 & Q3 & Q4 & Q5). subst s0. prim; rewrite bind_assert by exact Q4.
+    cbv beta. intros v p1 Hl_p1 (Q1 & Q2 & Q3 & Q4 & Q5). subst s0. prim; rewrite bind_assert by exact Q4.
     eapply RT_bind; [eapply (c_varlist_loop _ _ _ HR); [gd | exact Hg | exact HC | exact Hf]|].
-    cbv beta. intros tl p' (Q6 & Q7 & Q8). rewrite ret_eq. apply RT_ok. split; [exact Q6|]. split; [lia|].
+    cbv beta. intros tl p' Hl_px (Q6 & Q7 & Q8). rewrite ret_eq. apply RT_ok; [lia|]. split; [exact Q6|]. split; [lia|].
     all2v_tac. exact Q8.
 Qed.
 
 Lemma L_varlist p mx n vs s' : G' p -> sep_list (g_var n) (sym ","%bs) vs (SS p) = Some s' -> CTXL vs mx ->
   follow (anyof gassign) mx s' ->
-  RT (varlist_def ts R (p, mx)) mx (fun t p' => SS p' = s' /\ p < p' /\
+  RT ts (varlist_def ts R (p, mx)) mx (fun t p' => SS p' = s' /\ p < p' /\
        exists tl, t = Node tVarList p p' false [Lst tl] /\ all2v vs tl = true).
 Proof.
   intros HG Hg HC Hf. destruct HG as [Hp0 HGk]. destruct vs as [|x r]; [discriminate|]. cbn [sep_list] in Hg.
@@ -91,9 +91,9 @@ Proof.
   { destruct r as [|c2 [|x2 r2]]; cbn [sep_tail] in Hg; [injection Hg as <-; fw | discriminate |].
     apply obind_some in Hg. destruct Hg as (? & Hg & _). pose proof (hd_sym _ _ _ _ Hg) as Hh. fhd Hh. }
   eapply RT_bind; [eapply L_var; [split; assumption | exact E | exact HC1 | exact Hfx]|].
-  cbv beta. intros v p1 (Q1 & Q2 & Q3 & Q4 & Q5). subst s. rewrite Q4.
+  cbv beta. intros v p1 Hl_p1 (Q1 & Q2 & Q3 & Q4 & Q5). subst s. rewrite Q4.
   eapply RT_bind; [eapply L_varlist_loop; [gd | exact Hg | exact HC | exact Hf]|].
-  cbv beta. intros tl p' (Q6 & Q7 & Q8). rewrite mk_eq. apply RT_ok. split; [exact Q6|]. split; [lia|].
+  cbv beta. intros tl p' Hl_px (Q6 & Q7 & Q8). rewrite mk_eq. apply RT_ok; [lia|]. split; [exact Q6|]. split; [lia|].
   eexists. split; [reflexivity|]. all2v_tac. exact Q8.
 Qed.
 
@@ -150,20 +150,20 @@ Proof.
   intros p mx n l s' HG Hg HC Hf. destruct HG as [Hp0 HGk]. unfold elseif_loop_def.
   destruct n; [discriminate|]. pose proof Hg as Hg0. apply elseifs_inv in Hg.
   destruct Hg as [[-> ->]|[(el & b & -> & Hg)|(ei & c & t & b & r & -> & Hg)]].
-  - miss. rewrite ret_eq. apply RT_ok. split; [lia|]. exists [], [], (S n). split; [reflexivity|]. split; [reflexivity|].
+  - miss. rewrite ret_eq. apply RT_ok; [lia|]. split; [lia|]. exists [], [], (S n). split; [reflexivity|]. split; [reflexivity|].
     split; [exact Hg0 | left; reflexivity].
   - pose proof Hg as Hg'. osplit Hg' E. pose proof (hd_kw _ _ _ _ E) as Hh.
-    assert (Hf0 : follow (anyof [pkw "else"%bs]) mx (SS p)) by (fhd Hh). miss. rewrite ret_eq. apply RT_ok.
+    assert (Hf0 : follow (anyof [pkw "else"%bs]) mx (SS p)) by (fhd Hh). miss. rewrite ret_eq. apply RT_ok; [lia|].
     split; [lia|]. exists [], [el; Lst [PNone; b]], (S n). split; [reflexivity|]. split; [reflexivity|].
     split; [exact Hg0 | right; eexists _, _; reflexivity].
   - osplit Hg E1. osplit Hg E2. osplit Hg E3. osplit Hg E4. ctx_split HC. apply CTX_lst in HC1. ctx_split HC1.
     tinv E1. hit. pose proof (hd_kw _ _ _ _ E3) as Hh.
     eapply RT_bind; [eapply R_exp; [exact HR | gd | exact E2 | eassumption | fhd Hh]|].
-    cbv beta. intros e1 p1 (Q1 & Q2 & Q3 & Q4 & Q5). subst s0. tinv E3. hit.
+    cbv beta. intros e1 p1 Hl_p1 (Q1 & Q2 & Q3 & Q4 & Q5). subst s0. tinv E3. hit.
     eapply RT_bind; [eapply (c_chunk _ _ _ HR); [gd | exact E4 | eassumption | eapply elseifs_head; eassumption]|].
-    cbv beta. intros b1 p2 (Q6 & Q7 & Q8 & fs & ->). subst s2. prim; rewrite bind_assert by reflexivity.
+    cbv beta. intros b1 p2 Hl_p2 (Q6 & Q7 & Q8 & fs & ->). subst s2. prim; rewrite bind_assert by reflexivity.
     eapply RT_bind; [eapply (c_elseif_loop _ _ _ HR); [gd | exact Hg | exact HC | exact Hf]|].
-    cbv beta. intros tl p' (Q9 & l1 & l2 & n' & -> & Q10 & Q11 & Q12). rewrite ret_eq. apply RT_ok. split; [lia|].
+    cbv beta. intros tl p' Hl_px (Q9 & l1 & l2 & n' & -> & Q10 & Q11 & Q12). rewrite ret_eq. apply RT_ok; [lia|]. split; [lia|].
     exists (Kw i :: Lst [c; Kw i0; b] :: l1), l2, n'. split; [reflexivity|]. split; [|split; assumption].
     destruct (isnode_facts _ _ Q4) as (Qh & _). all2v_tac. exact Q10.
 Qed.
@@ -178,22 +178,22 @@ Lemma L_if_long pos ii p mx n a b c t bk rest e s' :
   G p -> pos <= ii -> ii + 1 = p ->
   (s <~ g_exp n c (SS p) ;; s <~ kw "then"%bs t s ;; s <~ g_chunk n bk s ;; s <~ g_elseifs n rest s ;; kw "end"%bs e s) = Some s' ->
   CTXL [c; t; bk] mx -> CTXL rest mx -> CTX e mx ->
-  RT (if_def ts R pos ii (p, mx)) mx (QS (Node tStatIf a b false [Kw ii; Lst (Lst [c; t; bk] :: rest); e]) s' pos).
+  RT ts (if_def ts R pos ii (p, mx)) mx (QS (Node tStatIf a b false [Kw ii; Lst (Lst [c; t; bk] :: rest); e]) s' pos).
 Proof.
   intros HG Hpos Hii Hg HC1 HCr HCe. destruct HG as [Hp0 HGk]. ctx_split HC1.
   osplit Hg E1. osplit Hg E2. osplit Hg E3. osplit Hg E4. unfold if_def.
   pose proof (hd_kw _ _ _ _ E2) as Hh.
   eapply RT_bind; [eapply R_exp; [exact HR | split; assumption | exact E1 | eassumption | fhd Hh]|].
-  cbv beta. intros e1 p1 (Q1 & Q2 & Q3 & Q4 & Q5). subst s. prim. tinv E2. hit. prim. miss. prim. hit. prim.
+  cbv beta. intros e1 p1 Hl_p1 (Q1 & Q2 & Q3 & Q4 & Q5). subst s. prim. tinv E2. hit. prim. miss. prim. hit. prim.
   pose proof (hd_kw _ _ _ _ Hg) as Hhe. assert (Hfe : follow (anyof [pkw "end"%bs]) mx s2) by (fhd Hhe).
   eapply RT_bind; [eapply (c_chunk _ _ _ HR); [gd | exact E3 | eassumption | eapply elseifs_head; eassumption]|].
-  cbv beta. intros b1 p2 (Q6 & Q7 & Q8 & fs & ->). subst s1. prim; rewrite bind_assert by reflexivity.
+  cbv beta. intros b1 p2 Hl_p2 (Q6 & Q7 & Q8 & fs & ->). subst s1. prim; rewrite bind_assert by reflexivity.
   eapply RT_bind; [eapply L_elseif_loop; [gd | exact E4 | exact HCr | exact Hfe]|].
-  cbv beta. intros tl p3 (Q9 & l1 & l2 & n' & -> & Q10 & Q11 & Q12).
+  cbv beta. intros tl p3 Hl_p3 (Q9 & l1 & l2 & n' & -> & Q10 & Q11 & Q12).
   apply CTXL_app in HCr. destruct HCr as [HCl1 HCl2]. destruct (isnode_facts _ _ Q4) as (Qh & _).
   destruct Q12 as [->|(el & b2 & ->)].
   - apply g_elseifs_nil in Q11. subst s2. assert (Hf1 : follow (anyof [pkw "end"%bs]) mx (SS p3)) by exact Hfe.
-    miss. prim. tinv Hg. hit. rewrite mk_eq. apply RT_ok. unfold QS.
+    miss. prim. tinv Hg. hit. rewrite mk_eq. apply RT_ok; [lia|]. unfold QS.
     split; [reflexivity|]. split; [lia|]. split; [|split; reflexivity].
     rewrite den_node by reflexivity. all2v_tac. rewrite all2v_cons; [exact all2v_nil | | reflexivity].
     rewrite den_lst. rewrite all2v_cons; [| rewrite den_lst; all2v_go | reflexivity].
@@ -203,8 +203,8 @@ Proof.
     injection Hx as <- <-. osplit Q11 E5. ctx_split HCl2. open_lst.
     tinv E5. hit.
     eapply RT_bind; [eapply (c_chunk _ _ _ HR); [gd | exact Q11 | eassumption | fw]|].
-    cbv beta. intros eb p4 (Q13 & Q14 & Q15 & fs2 & ->). subst s2. prim. prim; rewrite bind_assert by reflexivity. prim.
-    tinv Hg. hit. rewrite mk_eq. apply RT_ok. unfold QS.
+    cbv beta. intros eb p4 Hl_p4 (Q13 & Q14 & Q15 & fs2 & ->). subst s2. prim. prim; rewrite bind_assert by reflexivity. prim.
+    tinv Hg. hit. rewrite mk_eq. apply RT_ok; [lia|]. unfold QS.
     split; [reflexivity|]. split; [lia|]. split; [|split; reflexivity].
     rewrite den_node by reflexivity. all2v_tac. rewrite all2v_cons; [exact all2v_nil | | reflexivity].
     rewrite den_lst. rewrite all2v_cons; [| rewrite den_lst; all2v_go | reflexivity].
@@ -227,7 +227,7 @@ Qed.
 Lemma for_tail pos p1 mx n d bk e s' (pre : list tree) tag :
   G p1 -> (s <~ kw "do"%bs d (SS p1) ;; s <~ g_chunk n bk s ;; kw "end"%bs e s) = Some s' ->
   CTX d mx -> CTX bk mx -> CTX e mx ->
-  RT (('(di, _) <- expect ts (pkw "do"%bs) ;; b <- r_chunk R ;; b <- assert_node b ;;
+  RT ts (('(di, _) <- expect ts (pkw "do"%bs) ;; b <- r_chunk R ;; b <- assert_node b ;;
        '(ei, _) <- expect ts (pkw "end"%bs) ;; mk tag pos (pre ++ [Kw di; b; Kw ei])) (p1, mx)) mx
      (fun t p' => SS p' = s' /\ p1 < p' /\
         exists di b1 ei, t = Node tag pos p' false (pre ++ [Kw di; b1; Kw ei]) /\ den bk b1 = true /\
@@ -236,8 +236,8 @@ Proof.
   intros HG Hg HC1 HC2 HC3. destruct HG as [Hp0 HGk]. osplit Hg E1. osplit Hg E2. tinv E1. hit.
   pose proof (hd_kw _ _ _ _ Hg) as Hh.
   eapply RT_bind; [eapply (c_chunk _ _ _ HR); [gd | exact E2 | eassumption | fhd Hh]|].
-  cbv beta. intros b1 p2 (Q1 & Q2 & Q3 & fs & ->). subst s0. prim; rewrite bind_assert by reflexivity.
-  tinv Hg. hit. rewrite mk_eq. apply RT_ok. split; [reflexivity|]. split; [lia|].
+  cbv beta. intros b1 p2 Hl_p2 (Q1 & Q2 & Q3 & fs & ->). subst s0. prim; rewrite bind_assert by reflexivity.
+  tinv Hg. hit. rewrite mk_eq. apply RT_ok; [lia|]. split; [reflexivity|]. split; [lia|].
   eexists _, _, _. split; [reflexivity|]. split; [exact Q3|]. repeat split.
 Qed.
 
@@ -252,7 +252,7 @@ Lemma L_for_step pos fi p mx n a b nm q e1 c1 e2 r s' : G' p -> pos <= fi -> fi 
    | _ => None
    end) = Some s' ->
   CTXL (nm :: q :: e1 :: c1 :: e2 :: r) mx ->
-  RT (for_def ts R pos fi (p, mx)) mx (QS (Node tStatForStep a b false (Kw fi :: nm :: q :: e1 :: c1 :: e2 :: r)) s' pos).
+  RT ts (for_def ts R pos fi (p, mx)) mx (QS (Node tStatForStep a b false (Kw fi :: nm :: q :: e1 :: c1 :: e2 :: r)) s' pos).
 Proof.
   intros HG Hpos Hfi Hg HC. destruct HG as [Hp0 HGk]. unfold for_def. prim.
   apply CTXL_cons in HC. destruct HC as [HCnm HC]. apply CTXL_cons in HC. destruct HC as [HCq HC].
@@ -261,33 +261,33 @@ Proof.
   osplit Hg E1. osplit Hg E2. osplit Hg E3. osplit Hg E4. osplit Hg E5.
   tinv E1. hit. tinv E2. hit. pose proof (hd_sym _ _ _ _ E4) as Hh4.
   eapply RT_bind; [eapply R_exp; [exact HR | gd | exact E3 | eassumption | fhd Hh4]|].
-  cbv beta. intros x1 p1 (Q1 & Q2 & Q3 & Q4 & Q5). ssubst. destruct (isnode_facts _ _ Q4) as (Qh & Qn & _).
+  cbv beta. intros x1 p1 Hl_p1 (Q1 & Q2 & Q3 & Q4 & Q5). ssubst. destruct (isnode_facts _ _ Q4) as (Qh & Qn & _).
   prim; rewrite bind_assert by exact Qn. tinv E4. hit.
   destruct r as [|y1 [|y2 [|y3 [|y4 [|y5 [|? ?]]]]]]; try discriminate Hg; try (exfalso; gmatch Hg; fail).
   - (* no step *)
     destruct y1; try discriminate Hg. ctx_split HC. unfold g_dotail in Hg. pose proof Hg as Hg'. osplit Hg' E6.
     pose proof (hd_kw _ _ _ _ E6) as Hh6.
     eapply RT_bind; [eapply R_exp; [exact HR | gd | exact E5 | eassumption | fhd Hh6]|].
-    cbv beta. intros x2 p2 (Q6 & Q7 & Q8 & Q9 & Q10). ssubst. destruct (isnode_facts _ _ Q9) as (Qh2 & Qn2 & _).
+    cbv beta. intros x2 p2 Hl_p2 (Q6 & Q7 & Q8 & Q9 & Q10). ssubst. destruct (isnode_facts _ _ Q9) as (Qh2 & Qn2 & _).
     prim; rewrite bind_assert by exact Qn2. assert (Hf1 : follow (anyof [pkw "do"%bs]) mx (SS p2)) by (fhd Hh6). miss.
     eapply RT_conseq; [eapply (for_tail pos p2 mx n y2 y3 y4 s' [Kw fi; Tok i t; Kw i0; x1; Kw i1; x2; PNone] tStatForStep);
                        [gd | exact Hg | eassumption | eassumption | eassumption]|].
-    cbv beta. intros tr p' (Q11 & Q12 & di & b1 & ei & -> & Q13 & Q14 & -> & ->). unfold QS.
+    cbv beta. intros tr p' Hl_px (Q11 & Q12 & di & b1 & ei & -> & Q13 & Q14 & -> & ->). unfold QS.
     split; [exact Q11|]. split; [lia|]. split; [|split; reflexivity]. cbn [app opt_tok]. den_side.
   - (* step *)
     ctx_split HC.
     assert (Hg2 : (s <~ sym ","%bs y1 s3 ;; s <~ g_exp n y2 s ;; g_dotail n y3 y4 y5 s) = Some s') by (destruct y1; exact Hg).
     clear Hg. rename Hg2 into Hg. osplit Hg E6. osplit Hg E7. pose proof (hd_sym _ _ _ _ E6) as Hh6.
     eapply RT_bind; [eapply R_exp; [exact HR | gd | exact E5 | eassumption | fhd Hh6]|].
-    cbv beta. intros x2 p2 (Q6 & Q7 & Q8 & Q9 & Q10). ssubst. destruct (isnode_facts _ _ Q9) as (Qh2 & Qn2 & _).
+    cbv beta. intros x2 p2 Hl_p2 (Q6 & Q7 & Q8 & Q9 & Q10). ssubst. destruct (isnode_facts _ _ Q9) as (Qh2 & Qn2 & _).
     prim; rewrite bind_assert by exact Qn2. tinv E6. hit. unfold g_dotail in Hg. pose proof Hg as Hg'. osplit Hg' E8.
     pose proof (hd_kw _ _ _ _ E8) as Hh8.
     eapply RT_bind; [eapply R_exp; [exact HR | gd | exact E7 | eassumption | fhd Hh8]|].
-    cbv beta. intros x3 p3 (Q11 & Q12 & Q13 & Q14 & Q15). ssubst. destruct (isnode_facts _ _ Q14) as (Qh3 & Qn3 & _).
+    cbv beta. intros x3 p3 Hl_p3 (Q11 & Q12 & Q13 & Q14 & Q15). ssubst. destruct (isnode_facts _ _ Q14) as (Qh3 & Qn3 & _).
     prim; rewrite bind_assert by exact Qn3. prim.
     eapply RT_conseq; [eapply (for_tail pos p3 mx n y3 y4 y5 s' [Kw fi; Tok i t; Kw i0; x1; Kw i1; x2; Kw i2; x3] tStatForStep);
                        [gd | exact Hg | eassumption | eassumption | eassumption]|].
-    cbv beta. intros tr p' (Q16 & Q17 & di & b1 & ei & -> & Q18 & Q19 & -> & ->). unfold QS.
+    cbv beta. intros tr p' Hl_px (Q16 & Q17 & di & b1 & ei & -> & Q18 & Q19 & -> & ->). unfold QS.
     split; [exact Q16|]. split; [lia|]. split; [|split; reflexivity]. cbn [app opt_tok]. den_side.
 Qed.
 
@@ -300,7 +300,7 @@ Qed.
 Lemma L_for_in pos fi p mx n a b nl iw el d bk e s' : G' p -> pos <= fi -> fi + 1 = p ->
   (s <~ namelist nl (SS p) ;; s <~ kw "in"%bs iw s ;; s <~ g_explist n el s ;; g_dotail n d bk e s) = Some s' ->
   CTXL [nl; iw; el; d; bk; e] mx ->
-  RT (for_def ts R pos fi (p, mx)) mx (QS (Node tStatForIn a b false [Kw fi; nl; iw; el; d; bk; e]) s' pos).
+  RT ts (for_def ts R pos fi (p, mx)) mx (QS (Node tStatForIn a b false [Kw fi; nl; iw; el; d; bk; e]) s' pos).
 Proof.
   intros HG Hpos Hfi Hg HC. destruct HG as [Hp0 HGk]. unfold for_def. prim. ctx_split HC.
   osplit Hg E1. osplit Hg E2. osplit Hg E3. pose proof E1 as E1'.
@@ -317,13 +317,13 @@ Proof.
   destruct Hx as (i & t0 & t & -> & Hs & Hk & Hlim). destruct (spos ts p i t s2 Hp0 Hs) as (Hle & Hlt & Hn). ssubst.
   hit. miss.
   eapply RT_bind; [eapply L_namelist; [exact HR | split; assumption | exact E1 | eassumption | eapply nl_stop_hd; [|exact Hh2]; reflexivity]|].
-  cbv beta. intros nl1 p1 (Q1 & Q2 & Q3 & Q4 & Q5). ssubst. prim; rewrite bind_assert by exact Q4. tinv E2. hit.
+  cbv beta. intros nl1 p1 Hl_p1 (Q1 & Q2 & Q3 & Q4 & Q5). ssubst. prim; rewrite bind_assert by exact Q4. tinv E2. hit.
   unfold g_dotail in Hg. pose proof Hg as Hg'. osplit Hg' E4. pose proof (hd_kw _ _ _ _ E4) as Hh4.
   eapply RT_bind; [eapply L_explist; [exact HR | gd | exact E3 | eassumption | fhd Hh4]|].
-  cbv beta. intros el1 p2 (Q6 & Q7 & Q8 & Q9 & Q10). ssubst. prim; rewrite bind_assert by exact Q9.
+  cbv beta. intros el1 p2 Hl_p2 (Q6 & Q7 & Q8 & Q9 & Q10). ssubst. prim; rewrite bind_assert by exact Q9.
   eapply RT_conseq; [eapply (for_tail pos p2 mx n d bk e s' [Kw fi; nl1; Kw i0; el1] tStatForIn);
                      [gd | exact Hg | eassumption | eassumption | eassumption]|].
-  cbv beta. intros tr p' (Q11 & Q12 & di & b1 & ei & -> & Q13 & Q14 & -> & ->). unfold QS.
+  cbv beta. intros tr p' Hl_px (Q11 & Q12 & di & b1 & ei & -> & Q13 & Q14 & -> & ->). unfold QS.
   split; [exact Q11|]. split; [lia|]. split; [|split; reflexivity]. cbn [app]. den_side.
 Qed.
 
@@ -338,13 +338,13 @@ Qed.
 Lemma L_local_fun pos li p mx n a b f nm body s' : G' p -> pos <= li -> li + 1 = p ->
   (s <~ kw "function"%bs f (SS p) ;; s <~ tokc CName nm s ;; g_funcbody n body s) = Some s' ->
   CTXL [f; nm; body] mx ->
-  RT (local_def ts R pos li (p, mx)) mx (QS (Node tStatLocalFunction a b false [Kw li; f; nm; body]) s' pos).
+  RT ts (local_def ts R pos li (p, mx)) mx (QS (Node tStatLocalFunction a b false [Kw li; f; nm; body]) s' pos).
 Proof.
   intros HG Hpos Hli Hg HC. destruct HG as [Hp0 HGk]. ctx_split HC. osplit Hg E1. osplit Hg E2.
   unfold local_def. tinv E1. hit. tinv E2. hit.
   eapply RT_bind; [eapply L_funcbody; [exact HR | gd | exact Hg | eassumption]|].
-  cbv beta. intros b1 p1 (Q1 & Q2 & Q3 & Q4 & Q5). prim; rewrite bind_assert by exact Q4.
-  rewrite mk_eq. apply RT_ok. unfold QS. split; [exact Q1|]. split; [lia|]. split; [|split; reflexivity]. den_side.
+  cbv beta. intros b1 p1 Hl_p1 (Q1 & Q2 & Q3 & Q4 & Q5). prim; rewrite bind_assert by exact Q4.
+  rewrite mk_eq. apply RT_ok; [lia|]. unfold QS. split; [exact Q1|]. split; [lia|]. split; [|split; reflexivity]. den_side.
 Qed.
 
 Lemma namelist_head g s s' : namelist g s = Some s' -> hd_in [PClass CName] s.
@@ -356,22 +356,22 @@ Lemma L_local_asg pos li p mx n a b nl tl s' : G' p -> pos <= li -> li + 1 = p -
   (tl = [PNone] /\ namelist nl (SS p) = Some s' /\ follow fstat mx s') \/
   (exists q el, tl = [q; el] /\ (s <~ namelist nl (SS p) ;; s <~ sym "="%bs q s ;; g_explist n el s) = Some s' /\ follow fstat mx s') ->
   CTXL (nl :: tl) mx ->
-  RT (local_def ts R pos li (p, mx)) mx (QS (Node tStatLocalAssignment a b false (Kw li :: nl :: tl)) s' pos).
+  RT ts (local_def ts R pos li (p, mx)) mx (QS (Node tStatLocalAssignment a b false (Kw li :: nl :: tl)) s' pos).
 Proof.
   intros HG Hpos Hli Hg HC. destruct HG as [Hp0 HGk]. apply CTXL_cons in HC. destruct HC as [HCnl HC]. unfold local_def.
   destruct Hg as [(-> & Hg & Hf)|(q & el & -> & Hg & Hf)].
   - pose proof (namelist_head _ _ _ Hg) as Hh. assert (Hf0 : follow (anyof [PClass CName]) mx (SS p)) by (fhd Hh). miss.
     eapply RT_bind; [eapply L_namelist; [exact HR | split; assumption | exact Hg | exact HCnl | apply nl_stop_follow; fw]|].
-    cbv beta. intros nl1 p1 (Q1 & Q2 & Q3 & Q4 & Q5). subst s'. prim; rewrite bind_assert by exact Q4. miss.
-    rewrite mk_eq. apply RT_ok. unfold QS. split; [reflexivity|]. split; [lia|]. split; [|split; reflexivity]. den_side.
+    cbv beta. intros nl1 p1 Hl_p1 (Q1 & Q2 & Q3 & Q4 & Q5). subst s'. prim; rewrite bind_assert by exact Q4. miss.
+    rewrite mk_eq. apply RT_ok; [lia|]. unfold QS. split; [reflexivity|]. split; [lia|]. split; [|split; reflexivity]. den_side.
   - osplit Hg E1. osplit Hg E2. ctx_split HC.
     pose proof (namelist_head _ _ _ E1) as Hh. assert (Hf0 : follow (anyof [PClass CName]) mx (SS p)) by (fhd Hh). miss.
     pose proof (hd_sym _ _ _ _ E2) as Hh2.
     eapply RT_bind; [eapply L_namelist; [exact HR | split; assumption | exact E1 | exact HCnl | eapply nl_stop_hd; [|exact Hh2]; reflexivity]|].
-    cbv beta. intros nl1 p1 (Q1 & Q2 & Q3 & Q4 & Q5). ssubst. prim; rewrite bind_assert by exact Q4. tinv E2. hit.
+    cbv beta. intros nl1 p1 Hl_p1 (Q1 & Q2 & Q3 & Q4 & Q5). ssubst. prim; rewrite bind_assert by exact Q4. tinv E2. hit.
     eapply RT_bind; [eapply L_explist; [exact HR | gd | exact Hg | eassumption | fw]|].
-    cbv beta. intros el1 p2 (Q6 & Q7 & Q8 & Q9 & Q10). prim; rewrite bind_assert by exact Q9.
-    rewrite mk_eq. apply RT_ok. unfold QS. split; [exact Q6|]. split; [lia|]. split; [|split; reflexivity]. den_side.
+    cbv beta. intros el1 p2 Hl_p2 (Q6 & Q7 & Q8 & Q9 & Q10). prim; rewrite bind_assert by exact Q9.
+    rewrite mk_eq. apply RT_ok; [lia|]. unfold QS. split; [exact Q6|]. split; [lia|]. split; [|split; reflexivity]. den_side.
 Qed.
 
 (* ---------------------------------------------------------------- statements *)
@@ -387,7 +387,7 @@ Definition shortif_stmt : Prop :=
    | _ => None
    end) = Some s' ->
   CTX (Node tStatIf a b true [Kw ii; Lst (Lst [Paren o c ex; bk] :: rest)]) mx ->
-  RT (if_def ts R pos ii (p, mx)) mx (QS (Node tStatIf a b true [Kw ii; Lst (Lst [Paren o c ex; bk] :: rest)]) s' pos).
+  RT ts (if_def ts R pos ii (p, mx)) mx (QS (Node tStatIf a b true [Kw ii; Lst (Lst [Paren o c ex; bk] :: rest)]) s' pos).
 
 Hypothesis H_shortif : shortif_stmt.
 
@@ -395,7 +395,7 @@ Lemma assign_ops_nt : forallb pat_nontrivia assign_ops = true.
 Proof. reflexivity. Qed.
 
 Lemma L_stat p mx n g s' : G' p -> g_stat n g (SS p) = Some s' -> CTX g mx -> follow fstat mx s' ->
-  is_tag g tStatBreak = false -> RT (stat_def ts R (p, mx)) mx (QS g s' p).
+  is_tag g tStatBreak = false -> RT ts (stat_def ts R (p, mx)) mx (QS g s' p).
 Proof.
   intros HG Hg HC Hf Hnb. destruct HG as [Hp0 HGk]. destruct n; [discriminate|]. cbn [g_stat] in Hg.
   destruct g as [tag a b sh fs| | | | | | | |]; try discriminate.
@@ -404,17 +404,17 @@ Proof.
     osplit Hg E1. osplit Hg E2. apply tokp_inv in E2. destruct E2 as (oi & ot0 & ot & -> & -> & Hu).
     rewrite is_assignop_anyof in Hu. unfold stat_def. prim.
     eapply RT_bind; [eapply L_varlist; [split; assumption | exact E1 | eassumption | apply follow_head; exact Hu]|].
-    cbv beta. intros vl p1 (Q1 & Q2 & tl & -> & Q3). cbn [is_none strip_paren]. prim.
+    cbv beta. intros vl p1 Hl_p1 (Q1 & Q2 & tl & -> & Q3). cbn [is_none strip_paren]. prim.
     destruct (spos ts p1 oi ot _ ltac:(lia) Q1) as (Hle & Hlt & Hn). ssubst.
     match goal with HCt : ParserComplete2.CTX ts (Tok oi ot0) mx |- _ => pose proof (CTX_tok ts _ _ _ HCt) as Hlim end.
     rewrite (bind_accept_first_hit ts assign_ops _ p1 mx oi ot _ assign_ops_nt ltac:(lia) Q1 Hlim
                ltac:(eapply anyof_sub; [|exact Hu]; vm_compute; reflexivity)). cbv beta iota zeta. prim.
     eapply RT_bind; [eapply L_explist; [exact HR | gd | exact Hg | eassumption | fw]|].
-    cbv beta. intros el1 p2 (Q6 & Q7 & Q8 & Q9 & Q10). prim; rewrite bind_assert by exact Q9. prim.
-    rewrite ret_eq. apply RT_ok. unfold QS. split; [exact Q6|]. split; [lia|]. split; [|split; reflexivity]. den_side. }
+    cbv beta. intros el1 p2 Hl_p2 (Q6 & Q7 & Q8 & Q9 & Q10). prim; rewrite bind_assert by exact Q9. prim.
+    rewrite ret_eq. apply RT_ok; [lia|]. unfold QS. split; [exact Q6|]. split; [lia|]. split; [|split; reflexivity]. den_side. }
   gtag Hg tStatFunctionCall.
   { gmatch Hg. destruct (is_tag t tFunctionCall || is_tag t tFunctionCallMethod) eqn:Ec; [|discriminate]. open_node.
-    destruct (L_prefixexp ts R k HR p mx n t s' (conj Hp0 HGk) Hg ltac:(eassumption) ltac:(fw)) as (fc & p1 & E & Q1 & Q2 & Q3 & Q4 & Q5).
+    destruct (L_prefixexp ts R k HR p mx n t s' (conj Hp0 HGk) Hg ltac:(eassumption) ltac:(fw)) as (fc & p1 & E & Hl_p1 & Q1 & Q2 & Q3 & Q4 & Q5).
     assert (Htag : tag_of fc = tFunctionCall \/ tag_of fc = tFunctionCallMethod).
     { destruct t as [tg ta tb tsh tfs| | | | | | | |]; try discriminate Ec. unfold is_tag in Ec.
       destruct (tg =? tFunctionCall) eqn:E1.
@@ -425,31 +425,31 @@ Proof.
     assert (Hcl : is_call fc = true) by (unfold is_call; destruct Htag as [-> | ->]; reflexivity).
     unfold stat_def, varlist_def, var_def, functioncall_def. prim. rewrite (bind_ok _ _ _ _ _ E). rewrite Hv.
     do 3 (prim; cbn [is_none strip_paren negb]). rewrite (bind_ok _ _ _ _ _ E). rewrite Hcl. prim. rewrite Q5. cbn [negb].
-    rewrite mk_eq. apply RT_ok. unfold QS. split; [exact Q1|]. split; [lia|]. split; [|split; reflexivity]. den_side. }
+    rewrite mk_eq. apply RT_ok; [lia|]. unfold QS. split; [exact Q1|]. split; [lia|]. split; [|split; reflexivity]. den_side. }
   gtag Hg tStatDo.
   { gmatch Hg. open_node. osplit Hg E1. osplit Hg E2. tinv E1. stat_start Hp0. hit. pose proof (hd_kw _ _ _ _ Hg) as Hh.
     eapply RT_bind; [eapply (c_chunk _ _ _ HR); [gd | exact E2 | eassumption | fhd Hh]|].
-    cbv beta. intros b1 p2 (Q1 & Q2 & Q3 & fs & ->). ssubst. prim; rewrite bind_assert by reflexivity. tinv Hg. hit.
-    rewrite mk_eq. apply RT_ok. unfold QS. split; [reflexivity|]. split; [lia|]. split; [|split; reflexivity]. den_side. }
+    cbv beta. intros b1 p2 Hl_p2 (Q1 & Q2 & Q3 & fs & ->). ssubst. prim; rewrite bind_assert by reflexivity. tinv Hg. hit.
+    rewrite mk_eq. apply RT_ok; [lia|]. unfold QS. split; [reflexivity|]. split; [lia|]. split; [|split; reflexivity]. den_side. }
   gtag Hg tStatWhile.
   { gmatch Hg. open_node. osplit Hg E1. osplit Hg E2. tinv E1. stat_start Hp0. hit.
     assert (Hgt : g_dotail n t1 t2 t3 s0 = Some s') by exact Hg. unfold g_dotail in Hg. osplit Hg E3.
     pose proof (hd_kw _ _ _ _ E3) as Hh.
     eapply RT_bind; [eapply R_exp; [exact HR | gd | exact E2 | eassumption | fhd Hh]|].
-    cbv beta. intros x1 p1 (Q1 & Q2 & Q3 & Q4 & Q5). ssubst. destruct (isnode_facts _ _ Q4) as (Qh & Qn & _).
+    cbv beta. intros x1 p1 Hl_p1 (Q1 & Q2 & Q3 & Q4 & Q5). ssubst. destruct (isnode_facts _ _ Q4) as (Qh & Qn & _).
     prim; rewrite bind_assert by exact Qn.
     eapply RT_conseq; [eapply (for_tail p p1 mx n t1 t2 t3 s' [Kw i; x1] tStatWhile); [gd | exact Hgt | eassumption | eassumption | eassumption]|].
-    cbv beta. intros tr p' (Q11 & Q12 & di & b1 & ei & -> & Q13 & Q14 & -> & ->). unfold QS.
+    cbv beta. intros tr p' Hl_px (Q11 & Q12 & di & b1 & ei & -> & Q13 & Q14 & -> & ->). unfold QS.
     split; [exact Q11|]. split; [lia|]. split; [|split; reflexivity]. cbn [app]. den_side. }
   gtag Hg tStatRepeat.
   { gmatch Hg. open_node. osplit Hg E1. osplit Hg E2. osplit Hg E3. tinv E1. stat_start Hp0. hit.
     pose proof (hd_kw _ _ _ _ E3) as Hh.
     eapply RT_bind; [eapply (c_chunk _ _ _ HR); [gd | exact E2 | eassumption | fhd Hh]|].
-    cbv beta. intros b1 p2 (Q1 & Q2 & Q3 & fs & ->). ssubst. prim; rewrite bind_assert by reflexivity. tinv E3. hit.
+    cbv beta. intros b1 p2 Hl_p2 (Q1 & Q2 & Q3 & fs & ->). ssubst. prim; rewrite bind_assert by reflexivity. tinv E3. hit.
     eapply RT_bind; [eapply R_exp; [exact HR | gd | exact Hg | eassumption | fw]|].
-    cbv beta. intros x1 p1 (Q4 & Q5 & Q6 & Q7 & Q8). destruct (isnode_facts _ _ Q7) as (Qh & Qn & _).
+    cbv beta. intros x1 p1 Hl_p1 (Q4 & Q5 & Q6 & Q7 & Q8). destruct (isnode_facts _ _ Q7) as (Qh & Qn & _).
     prim; rewrite bind_assert by exact Qn.
-    rewrite mk_eq. apply RT_ok. unfold QS. split; [exact Q4|]. split; [lia|]. split; [|split; reflexivity]. den_side. }
+    rewrite mk_eq. apply RT_ok; [lia|]. unfold QS. split; [exact Q4|]. split; [lia|]. split; [|split; reflexivity]. den_side. }
   gtag Hg tStatIf.
   { destruct sh.
     - gmatch Hg; pose proof HC as HC'; apply CTX_node in HC'; ctx_split HC'; osplit Hg E1; tinv E1; stat_start Hp0; hit;
@@ -472,10 +472,10 @@ Proof.
            eapply RT_bind; [eapply (L_funcname ts R k HR _ mx0 (Node tFunctionName fa fb fsh ffs));
              [gd | unfold g_funcname; change (tFunctionName =? tFunctionName) with true; cbv iota; rewrite E2; exact E3
               | exact HCn | fhd Hh]|] end.
-    all: cbv beta; intros fn p1 (Q1 & Q2 & Q3 & Q4 & Q5); ssubst; (prim; rewrite bind_assert by exact Q4).
+    all: cbv beta; intros fn p1 Hl_p1 (Q1 & Q2 & Q3 & Q4 & Q5); ssubst; (prim; rewrite bind_assert by exact Q4).
     all: (eapply RT_bind; [eapply L_funcbody; [exact HR | gd | exact Hg | eassumption]|]).
-    all: cbv beta; intros b1 p2 (Q6 & Q7 & Q8 & Q9 & Q10); (prim; rewrite bind_assert by exact Q9).
-    all: rewrite mk_eq; apply RT_ok; unfold QS; (split; [exact Q6|]); (split; [lia|]); (split; [|split; reflexivity]); den_side. }
+    all: cbv beta; intros b1 p2 Hl_p2 (Q6 & Q7 & Q8 & Q9 & Q10); (prim; rewrite bind_assert by exact Q9).
+    all: rewrite mk_eq; (apply RT_ok; [lia|]); unfold QS; (split; [exact Q6|]); (split; [lia|]); (split; [|split; reflexivity]); den_side. }
   gtag Hg tStatLocalFunction.
   { gmatch Hg. open_node. osplit Hg E1. tinv E1. stat_start Hp0. hit.
     eapply L_local_fun; [gd | lia | reflexivity | exact Hg |]. repeat (apply Forall_cons; [eassumption|]). constructor. }
@@ -483,17 +483,17 @@ Proof.
   { open_node. destruct fs as [|l [|nl tl]]; try discriminate Hg; try (exfalso; gmatch Hg; fail).
     apply CTXL_cons in HC. destruct HC as [HCl HC].
     assert (Hl : exists i, l = Kw i /\ exists t, SS p = (i, t) :: SS (i + 1) /\ kmatch (kd t) (pkw "local"%bs) = true /\
-                 p <= i /\ i < lim mx /\
+                 p <= i /\ i < len /\ i < lim mx /\
                  ((tl = [PNone] /\ namelist nl (SS (i + 1)) = Some s') \/
                   (exists q el, tl = [q; el] /\ (s <~ namelist nl (SS (i + 1)) ;; s <~ sym "="%bs q s ;; g_explist n el s) = Some s'))).
     { destruct tl as [|x1 [|x2 [|? ?]]]; cbv beta iota in Hg; try discriminate Hg; try (exfalso; gmatch Hg; fail).
       - destruct x1; try discriminate Hg. osplit Hg E1. tinv E1. eexists. split; [reflexivity|]. eexists. split; [eassumption|].
-        split; [assumption|]. split; [lia|]. split; [assumption|]. left. split; [reflexivity | exact Hg].
+        split; [assumption|]. split; [lia|]. split; [lia|]. split; [assumption|]. left. split; [reflexivity | exact Hg].
       - assert (Hg2 : (s <~ kw "local"%bs l (SS p) ;; s <~ namelist nl s ;; s <~ sym "="%bs x1 s ;; g_explist n x2 s) = Some s')
           by (destruct x1; exact Hg).
         osplit Hg2 E1. tinv E1. eexists. split; [reflexivity|]. eexists. split; [eassumption|].
-        split; [assumption|]. split; [lia|]. split; [assumption|]. right. eexists _, _. split; [reflexivity | exact Hg2]. }
-    destruct Hl as (i & -> & t & Hs & Hk & Hle & Hlim & Hcases).
+        split; [assumption|]. split; [lia|]. split; [lia|]. split; [assumption|]. right. eexists _, _. split; [reflexivity | exact Hg2]. }
+    destruct Hl as (i & -> & t & Hs & Hk & Hle & Hlt & Hlim & Hcases).
     pose proof (follow_known ts _ mx _ _ _ _ Hs Hk) as Hf0. stat_start Hp0. hit.
     eapply L_local_asg with (n := n); [gd | lia | reflexivity | | exact HC].
     destruct Hcases as [[-> Hn]|(q & el & -> & Hn)]; [left | right; eexists _, _]; repeat split; first [reflexivity | assumption]. }
@@ -506,7 +506,7 @@ Proof.
     match goal with HCt : ParserComplete2.CTX ts (Tok ?jj ?tt) mx |- _ =>
       pose proof (CTX_tok ts _ _ _ HCt) as Hlim2; pose proof (CTX_tokdata ts _ _ _ _ HCt Hta) as Hdata end.
     hit. destruct (zlist_eqb b0 (tdata t0)) eqn:Ez; [|discriminate Hg]. injection Hg as <-.
-    rewrite mk_eq. apply RT_ok. unfold QS. split; [reflexivity|]. split; [lia|]. split; [|split; reflexivity].
+    rewrite mk_eq. apply RT_ok; [lia|]. unfold QS. split; [reflexivity|]. split; [lia|]. split; [|split; reflexivity].
     rewrite den_node by reflexivity. all2v_tac. rewrite all2v_cons; [exact all2v_nil | | reflexivity].
     apply den_pbytes. rewrite Hdata. exact Ez. }
   gtag Hg tStatLabel.
@@ -518,10 +518,206 @@ Proof.
       pose proof (CTX_tok ts _ _ _ HCt) as Hlim2; pose proof (CTX_tokdata ts _ _ _ _ HCt Hta) as Hdata end.
     pose proof (follow_known ts _ mx _ _ _ _ Hs2 Hk2) as Hf0. stat_start Hp0. hit.
     destruct (zlist_eqb b0 (label_name (tdata t))) eqn:Ez; [|discriminate Hg]. injection Hg as <-.
-    rewrite mk_eq. apply RT_ok. unfold QS. split; [reflexivity|]. split; [lia|]. split; [|split; reflexivity].
+    rewrite mk_eq. apply RT_ok; [lia|]. unfold QS. split; [reflexivity|]. split; [lia|]. split; [|split; reflexivity].
     rewrite den_node by reflexivity. all2v_tac. rewrite all2v_cons; [exact all2v_nil | | reflexivity].
     apply den_pbytes. rewrite label_slice, Hdata. exact Ez. }
   gtag Hg tStatBreak. unfold is_tag in Hnb. discriminate Hnb.
+Qed.
+
+(* ---------------------------------------------------------------- statement lists *)
+Definition stats_first : list pat := pkw "return"%bs :: psym "("%bs :: stat_first_np.
+
+Lemma g_stats_head n x r s s' : g_stats n (x :: r) s = Some s' -> is_kwt x = false -> hd_in stats_first s.
+Proof.
+  intros H Hx. destruct n; [discriminate|]. cbn [g_stats] in H. destruct x; try discriminate Hx.
+  all: try (cbn [is_tag] in H; apply obind_some in H; destruct H as (s1 & H & _); destruct n; discriminate H).
+  destruct (is_tag (Node tag s0 e short fields) tStatReturn).
+  - gmatch H; hd_first H.
+  - apply obind_some in H. destruct H as (s1 & H & _). apply g_stat_head in H.
+    destruct (starts_paren _); [|destruct (is_tag _ tStatDo)]; (eapply hd_sub; [|exact H]; vm_compute; reflexivity).
+Qed.
+
+Lemma all2d_kw_nil ks : forallb is_kwt ks = true -> all2d ks [] = true.
+Proof.
+  induction ks as [|x ks IH]; [reflexivity|]. cbn [forallb]. intros H. apply andb_true_iff in H. destruct H as [H1 H2].
+  destruct x; try discriminate H1. rewrite all2d_cons. cbn [is_hidden]. apply IH, H2.
+Qed.
+
+Lemma L_semis_stats : semis_stats_ok ts G' (semis_def ts R).
+Proof.
+  intros p mx n l s' HG Hg HC Hf. destruct HG as [Hp0 HGk]. unfold semis_def.
+  destruct n; [discriminate|]. destruct l as [|x r].
+  - cbn [g_stats] in Hg. injection Hg as <-. miss. rewrite ret_eq. apply RT_ok; [lia|]. split; [lia|]. split; [reflexivity|].
+    exists [], [], 1%nat. repeat split.
+  - destruct (is_kwt x) eqn:Ex.
+    + destruct x; try discriminate Ex. cbn [g_stats] in Hg. osplit Hg E. apply CTXL_cons in HC. destruct HC as [HC1 HC].
+      tinv E. hit.
+      eapply RT_bind; [eapply (c_semis_stats _ _ _ HR); [gd | exact Hg | exact HC | exact Hf]|].
+      cbv beta. intros tl p' Hl_px (Q1 & Q2 & ks & rest & n' & -> & Q3 & Q4 & Q5). rewrite ret_eq. apply RT_ok; [lia|].
+      split; [lia|]. split; [rewrite views_cons; exact Q2|]. exists (Kw i0 :: ks), rest, n'. split; [reflexivity|].
+      split; [exact Q3|]. split; assumption.
+    + pose proof (g_stats_head _ _ _ _ _ Hg Ex) as Hh. assert (Hf0 : follow (anyof stats_first) mx (SS p)) by (fhd Hh).
+      miss. rewrite ret_eq. apply RT_ok; [lia|]. split; [lia|]. split; [reflexivity|].
+      exists [], (x :: r), (S n). split; [reflexivity|]. split; [reflexivity|]. split; [exact Hg|].
+      destruct x; try exact I. discriminate Ex.
+Qed.
+
+Lemma pguard_mono l : pguard false l = true -> pguard true l = true.
+Proof.
+  destruct l as [|x r]; [reflexivity|]. cbn [pguard]. destruct x; try (intros H; exact H);
+    cbn [orb]; intros H; apply andb_true_iff in H; apply H.
+Qed.
+
+Lemma pguard_kws ks rest : forallb is_kwt ks = true -> pguard true (ks ++ rest) = true -> pguard true rest = true.
+Proof.
+  induction ks as [|x ks IH]; [intros _ H; exact H|]. cbn [forallb app]. intros H Hp. apply andb_true_iff in H.
+  destruct H as [H1 H2]. destruct x; try discriminate H1. cbn [pguard] in Hp. apply IH; assumption.
+Qed.
+
+Lemma pguard_tail x r : is_kwt x = false -> pguard true (x :: r) = true -> pguard false r = true.
+Proof. intros Hx H. destruct x; try discriminate Hx; cbn [pguard orb andb] in H; exact H. Qed.
+
+Lemma stats_follow m r s1 s' mx : g_stats m r s1 = Some s' -> pguard false r = true -> follow fblock mx s' ->
+  follow fstat mx s1.
+Proof.
+  intros H Hp Hf. destruct m; [discriminate|]. destruct r as [|y r].
+  - cbn [g_stats] in H. injection H as <-. fw.
+  - destruct (is_kwt y) eqn:Ey.
+    + destruct y; try discriminate Ey. cbn [g_stats] in H. apply obind_some in H. destruct H as (? & H & _).
+      pose proof (hd_sym _ _ _ _ H) as Hh. fhd Hh.
+    + cbn [g_stats] in H. destruct y; try discriminate Ey;
+        try (cbn [is_tag] in H; apply obind_some in H; destruct H as (s2 & H & _); destruct m; discriminate H).
+      destruct (is_tag (Node tag s e short fields) tStatReturn).
+      * assert (Hh : hd_in [pkw "return"%bs] s1) by (gmatch H; hd_first H). fhd Hh.
+      * apply obind_some in H. destruct H as (s2 & H & _). cbn [pguard orb] in Hp. apply andb_true_iff in Hp.
+        destruct Hp as [Hp _]. apply negb_true_iff in Hp. pose proof (g_stat_head_np _ _ _ _ H Hp) as Hh. fhd Hh.
+Qed.
+
+Lemma g_stat_break_inv n a b sh fs s s' : g_stat (S n) (Node tStatBreak a b sh fs) s = Some s' ->
+  exists bk, fs = [bk] /\ kw "break"%bs bk s = Some s'.
+Proof.
+  cbn [g_stat]. repeat match goal with |- context [tStatBreak =? ?x] =>
+    let v := eval vm_compute in (tStatBreak =? x) in change (tStatBreak =? x) with v end. cbv beta iota.
+  intros H. destruct fs as [|bk [|? ?]]; try discriminate H. exists bk. split; [reflexivity | exact H].
+Qed.
+
+Lemma L_stats : stats_ok ts G' (stats_loop_def ts R).
+Proof.
+  intros p mx n l s' HG Hg HC Hpg Hf. pose proof HG as [Hp0 HGk]. unfold stats_loop_def.
+  eapply RT_bind; [eapply L_semis_stats; [exact HG | exact Hg | exact HC | fw]|].
+  cbv beta. intros sm p1 Hl_p1 (Q1 & Q2 & ks & rest & n' & -> & Q3 & Q4 & Q5).
+  apply CTXL_app in HC. destruct HC as [HCk HCr]. pose proof (pguard_kws _ _ Q3 Hpg) as Hpg'.
+  assert (Hsm : all2v ks sm = true) by (unfold all2v; rewrite Q2; apply all2d_kw_nil, Q3).
+  destruct n'; [discriminate|]. destruct rest as [|x r].
+  - cbn [g_stats] in Q4. injection Q4 as <-.
+    rewrite (bind_ok _ _ _ _ _ (L_stat_none p1 mx ltac:(lia) ltac:(fw))). cbn [is_none strip_paren]. prim. miss.
+    rewrite ret_eq. apply RT_ok; [lia|]. split; [lia|]. exists ks, [], 1%nat. split; [reflexivity|]. split; [exact Hsm|].
+    split; [reflexivity | left; reflexivity].
+  - assert (Ex : is_kwt x = false) by (destruct x; try reflexivity; contradiction Q5).
+    pose proof (pguard_tail _ _ Ex Hpg') as Hpr. apply CTXL_cons in HCr. destruct HCr as [HCx HCr].
+    cbn [g_stats] in Q4. destruct x as [tag a b sh fs| | | | | | | |]; try discriminate Ex;
+      try (cbn [is_tag] in Q4; apply obind_some in Q4; destruct Q4 as (s2 & Q4 & _); destruct n'; discriminate Q4).
+    destruct (is_tag (Node tag a b sh fs) tStatReturn) eqn:Eret.
+    + assert (Hh : hd_in [pkw "return"%bs] (SS p1)) by (gmatch Q4; hd_first Q4).
+      assert (Hf0 : follow (anyof [pkw "return"%bs]) mx (SS p1)) by (fhd Hh).
+      rewrite (bind_ok _ _ _ _ _ (L_stat_none p1 mx ltac:(lia) ltac:(fw))). cbn [is_none strip_paren]. prim. miss.
+      rewrite ret_eq. apply RT_ok; [lia|]. split; [lia|]. exists ks, (Node tag a b sh fs :: r), (S n'). split; [reflexivity|].
+      split; [exact Hsm|]. split; [cbn [g_stats]; rewrite Eret; exact Q4|]. right. eexists _, _. split; [reflexivity | exact Eret].
+    + osplit Q4 E. destruct (is_tag (Node tag a b sh fs) tStatBreak) eqn:Ebr.
+      * unfold is_tag in Ebr. apply Z.eqb_eq in Ebr. subst tag. destruct n'; [discriminate|].
+        clear Eret. apply g_stat_break_inv in E. destruct E as (bk & -> & E). open_node. tinv E.
+        rewrite (bind_ok _ _ _ _ _ (L_stat_none p1 mx ltac:(lia) ltac:(fw))). cbn [is_none strip_paren]. prim. hit.
+        eapply RT_bind; [eapply (c_stats _ _ _ HR); [gd | exact Q4 | exact HCr | apply pguard_mono, Hpr | exact Hf]|].
+        cbv beta. intros tlr p2 Hl_p2 (Q6 & l1 & l2 & n2 & -> & Q7 & Q8 & Q9). rewrite ret_eq. apply RT_ok; [lia|].
+        split; [lia|]. exists (ks ++ Node tStatBreak a b false [Kw i] :: l1), l2, n2.
+        split; [rewrite <- app_assoc; reflexivity|]. split; [|split; assumption].
+        rewrite all2v_app by exact Hsm. rewrite all2v_cons; [exact Q7 | den_side | reflexivity].
+      * eapply RT_bind; [eapply L_stat; [gd | exact E | exact HCx | eapply stats_follow; eassumption | exact Ebr]|].
+        cbv beta. intros st p2 Hl_p2 (Q6 & Q7 & Q8 & Q9 & Q10). ssubst. rewrite Q9.
+        eapply RT_bind; [eapply (c_stats _ _ _ HR); [gd | exact Q4 | exact HCr | apply pguard_mono, Hpr | exact Hf]|].
+        cbv beta. intros tlr p3 Hl_p3 (Q11 & l1 & l2 & n2 & -> & Q12 & Q13 & Q14). rewrite ret_eq. apply RT_ok; [lia|].
+        split; [lia|]. exists (ks ++ Node tag a b sh fs :: l1), l2, n2.
+        split; [rewrite <- app_assoc; reflexivity|]. split; [|split; assumption].
+        rewrite all2v_app by exact Hsm. rewrite all2v_cons; [exact Q12 | exact Q8 | exact Q10].
+Qed.
+
+(* ---------------------------------------------------------------- blocks *)
+Lemma g_semis_kws l s s' : g_semis l s = Some s' -> forallb is_kwt l = true.
+Proof.
+  revert s. induction l as [|x l IH]; intros s H; [reflexivity|]. cbn [g_semis] in H. apply obind_some in H.
+  destruct H as (s1 & E & H). apply sym_inv in E. destruct E as (i & t & -> & _). cbn [forallb is_kwt]. eapply IH, H.
+Qed.
+
+Lemma g_semis_follow l s s' mx : g_semis l s = Some s' -> follow fblock mx s' -> follow (anyof (psym ";"%bs :: block_end)) mx s.
+Proof.
+  intros H Hf. destruct l as [|x l]; cbn [g_semis] in H.
+  - injection H as <-. fw.
+  - apply obind_some in H. destruct H as (s1 & E & _). pose proof (hd_sym _ _ _ _ E) as Hh. fhd Hh.
+Qed.
+
+Lemma return_inv n a b sh fs r s s' : is_tag (Node tStatReturn a b sh fs) tStatReturn = true ->
+  g_stats (S n) (Node tStatReturn a b sh fs :: r) s = Some s' ->
+  exists kr el, fs = [kr; el] /\
+    ((el = PNone /\ (s <~ kw "return"%bs kr s ;; g_semis r s) = Some s') \/
+     (el <> PNone /\ (s <~ kw "return"%bs kr s ;; s <~ g_explist n el s ;; g_semis r s) = Some s')).
+Proof.
+  intros Ht H. cbn [g_stats] in H. rewrite Ht in H.
+  destruct fs as [|kr [|el [|? ?]]]; try discriminate H; try (destruct el; discriminate H).
+  exists kr, el. split; [reflexivity|]. destruct el; first [left; split; [reflexivity | exact H] | right; split; [discriminate | exact H]].
+Qed.
+
+Lemma L_chunk : chunk_ok ts G' (chunk_def ts R).
+Proof.
+  intros p mx n g s' HG Hg HC Hf. pose proof HG as [Hp0 HGk]. destruct n; [discriminate|]. cbn [g_chunk] in Hg.
+  destruct g as [tag a b sh fs| | | | | | | |]; try discriminate. destruct fs as [|[| |l| | | | | |] [|? ?]]; try discriminate.
+  gtag Hg tChunk. pose proof HC as (Hfrag & _). cbn [in_frag] in Hfrag. change (tChunk =? tChunk) with true in Hfrag.
+  cbv iota in Hfrag. apply andb_true_iff in Hfrag. destruct Hfrag as [Hfrag _]. apply andb_true_iff in Hfrag.
+  destruct Hfrag as [Hfrag _]. apply andb_true_iff in Hfrag. destruct Hfrag as [_ Hpg].
+  open_node. open_lst. unfold chunk_def. prim.
+  eapply RT_bind; [eapply L_stats; [exact HG | exact Hg | eassumption | apply pguard_mono, Hpg | exact Hf]|].
+  cbv beta. intros tl p1 Hl_p1 (Q1 & l1 & l2 & n' & -> & Q2 & Q3 & Q4).
+  match goal with HCl : ParserComplete2.CTXL ts (l1 ++ l2) mx |- _ => apply CTXL_app in HCl; destruct HCl as [HCl1 HCl2] end.
+  destruct Q4 as [->|(x & r & -> & Ht)].
+  - destruct n'; [discriminate|]. cbn [g_stats] in Q3. injection Q3 as <-.
+    eapply RT_bind; [eapply (L_semis ts R k HR p1 mx []); [gd | reflexivity | constructor | fw]|].
+    cbv beta. intros sm1 p2 Hl_p2 (Q5 & Q6 & Q7). unfold laststat_def. prim.
+    assert (Hf2 : follow fblock mx (SS p2)) by (rewrite Q5; exact Hf). miss. miss. prim.
+    eapply RT_bind; [eapply (L_semis ts R k HR p2 mx []); [gd | reflexivity | constructor | fw]|].
+    cbv beta. intros sm2 p3 Hl_p3 (Q8 & Q9 & Q10). cbn [is_none strip_paren]. rewrite mk_eq. apply RT_ok; [lia|].
+    split; [congruence|]. split; [lia|]. split; [|eexists; reflexivity].
+    rewrite den_node by reflexivity. rewrite all2v_cons; [exact all2v_nil | | reflexivity]. rewrite den_lst.
+    rewrite all2v_app by exact Q2. unfold all2v. rewrite !views_app, Q7, Q10. reflexivity.
+  - destruct x as [tag xa xb xsh xfs| | | | | | | |]; try discriminate Ht. pose proof Ht as Ht'. unfold is_tag in Ht'.
+    apply Z.eqb_eq in Ht'. subst tag. destruct n'; [discriminate|]. apply (return_inv _ _ _ _ _ _ _ _ Ht) in Q3.
+    destruct Q3 as (kr & el & -> & Hcases). apply CTXL_cons in HCl2. destruct HCl2 as [HCx HCr]. open_node.
+    assert (Hh : hd_in [pkw "return"%bs] (SS p1)) by (destruct Hcases as [[_ Hc]|[_ Hc]]; hd_first Hc).
+    assert (Hf0 : follow (anyof [pkw "return"%bs]) mx (SS p1)) by (fhd Hh).
+    eapply RT_bind; [eapply (L_semis ts R k HR p1 mx []); [gd | reflexivity | constructor | fw]|].
+    cbv beta. intros sm1 p2 Hl_p2 (Q5 & Q6 & Q7). unfold laststat_def. prim.
+    assert (Hf2 : follow (anyof [pkw "return"%bs]) mx (SS p2)) by (rewrite Q5; exact Hf0). miss.
+    destruct Hcases as [[-> Hc]|[Hne Hc]].
+    + osplit Hc E1. rewrite <- Q5 in E1. tinv E1. hit. pose proof (g_semis_follow _ _ _ mx Hc Hf) as Hfs.
+      rewrite (bind_ok _ _ _ _ _ (L_explist_none ts R k HR (i + 1) mx ltac:(gd) ltac:(fw))). prim.
+      cbn [is_none strip_paren].
+      eapply RT_bind; [eapply (L_semis ts R k HR); [gd | exact Hc | exact HCr | fw]|].
+      cbv beta. intros sm2 p3 Hl_p3 (Q8 & Q9 & Q10). rewrite mk_eq. apply RT_ok; [lia|].
+      split; [exact Q8|]. split; [lia|]. split; [|eexists; reflexivity].
+      rewrite den_node by reflexivity. rewrite all2v_cons; [exact all2v_nil | | reflexivity]. rewrite den_lst.
+      rewrite all2v_app by exact Q2. unfold all2v. rewrite !views_app, Q7. cbn [app].
+      rewrite views_cons. cbn [is_hidden]. rewrite views_nil. cbn [app]. rewrite Q10. rewrite all2d_cons. cbn [is_hidden].
+      fold (den (Node tStatReturn xa xb false [Kw i; PNone]) (Node tStatReturn p2 (i + 1) false [Kw i; PNone])).
+      rewrite den_node by reflexivity. all2v_tac. cbn [andb]. apply all2d_kw_nil. eapply g_semis_kws, Hc.
+    + osplit Hc E1. osplit Hc E2. rewrite <- Q5 in E1. tinv E1. hit. pose proof (g_semis_follow _ _ _ mx Hc Hf) as Hfs.
+      eapply RT_bind; [eapply L_explist; [exact HR | gd | exact E2 | eassumption | fw]|].
+      cbv beta. intros el1 p3 Hl_p3 (Q8 & Q9 & Q10 & Q11 & Q12). ssubst. prim. cbn [is_none strip_paren].
+      eapply RT_bind; [eapply (L_semis ts R k HR); [gd | exact Hc | exact HCr | fw]|].
+      cbv beta. intros sm2 p4 Hl_p4 (Q13 & Q14 & Q15). rewrite mk_eq. apply RT_ok; [lia|].
+      split; [exact Q13|]. split; [lia|]. split; [|eexists; reflexivity].
+      rewrite den_node by reflexivity. rewrite all2v_cons; [exact all2v_nil | | reflexivity]. rewrite den_lst.
+      rewrite all2v_app by exact Q2. unfold all2v. rewrite !views_app, Q7. cbn [app].
+      rewrite views_cons. cbn [is_hidden]. rewrite views_nil. cbn [app]. rewrite Q15. rewrite all2d_cons. cbn [is_hidden].
+      fold (den (Node tStatReturn xa xb false [Kw i; el]) (Node tStatReturn p2 p3 false [Kw i; el1])).
+      rewrite den_node by reflexivity. all2v_tac. cbn [andb]. apply all2d_kw_nil. eapply g_semis_kws, Hc.
 Qed.
 
 End Step4.
